@@ -213,6 +213,11 @@ fn other_algo(a: Algo) -> Algo {
 /// Declared integrity text for a spec (always well-formed: real digests, possibly of other
 /// data or with one flipped bit).
 pub fn declared_integrity(d: IntegDecl, algo: Algo, data: &[u8]) -> Option<String> {
+    declared_integrity_ex(d, algo, data, &[])
+}
+
+/// `other` = the bytes of another value of the pool (for `DigestOfOtherBlob`).
+pub fn declared_integrity_ex(d: IntegDecl, algo: Algo, data: &[u8], other: &[u8]) -> Option<String> {
     let wrong = |salt: u8| {
         let mut raw = blob::digest_raw(algo, data);
         raw[salt as usize % 4] ^= 1 << (salt % 8);
@@ -232,6 +237,7 @@ pub fn declared_integrity(d: IntegDecl, algo: Algo, data: &[u8]) -> Option<Strin
             }
         }
         IntegDecl::MultiAllWrong => Some(format!("{} {}", wrong(1), wrong(2))),
+        IntegDecl::DigestOfOtherBlob => Some(blob::sri(algo, other)),
         IntegDecl::MultiTwoAlgos => {
             if data.len() % 2 == 0 {
                 Some(format!("{} {}", blob::sri(algo, data), blob::sri(other_algo(algo), data)))
@@ -240,6 +246,11 @@ pub fn declared_integrity(d: IntegDecl, algo: Algo, data: &[u8]) -> Option<Strin
             }
         }
     }
+}
+
+/// The bytes of "another value of the pool" relative to blob `b` (the next one, cyclically).
+pub fn other_blob(ctx: &Ctx, b: usize) -> Arc<Vec<u8>> {
+    ctx.blob((b + 1) % ctx.blobs.len().max(1))
 }
 
 /// Cuts `data` according to the chunk list (see `WriteSpec::chunks`).
@@ -269,7 +280,7 @@ fn build_opts(ctx: &Ctx, s: &WriteSpec, data: &[u8]) -> cacache::WriteOpts {
     if let Some(n) = declared_size(s.declare, data.len()) {
         o = o.size(n);
     }
-    if let Some(i) = declared_integrity(s.integ, s.algo, data) {
+    if let Some(i) = declared_integrity_ex(s.integ, s.algo, data, &other_blob(ctx, s.blob)) {
         o = o.integrity(i.parse().unwrap());
     }
     if let Some(t) = s.time_u128() {
@@ -283,6 +294,63 @@ fn build_opts(ctx: &Ctx, s: &WriteSpec, data: &[u8]) -> cacache::WriteOpts {
     }
     let _ = ctx;
     o
+}
+
+/// The chunk as up to `n` slices (the last slice takes the remainder).
+fn slices(chunk: &[u8], n: usize) -> Vec<&[u8]> {
+    // more than a thousand slices only for chunks up to 8 KiB (a default `write_vectored`
+    // takes one slice per call: a million tiny writes would only burn time)
+    let n = if n >= 1000 && chunk.len() > 8192 { 3 } else { n };
+    let n = n.max(1).min(chunk.len().max(1));
+    let step = (chunk.len() / n).max(1);
+    let mut v = Vec::with_capacity(n);
+    let mut off = 0;
+    for i in 0..n {
+        let end = if i + 1 == n { chunk.len() } else { (off + step).min(chunk.len()) };
+        v.push(&chunk[off..end]);
+        off = end;
+    }
+    v
+}
+
+/// Hands the chunk over through `write_vectored`, offering what was not accepted again
+/// (the documented contract of a short vectored write).
+fn sync_write_chunk_vectored<W: Write>(w: &mut W, chunk: &[u8], n: usize) -> std::io::Result<()> {
+    let mut rest = chunk;
+    loop {
+        let sl = slices(rest, n);
+        let ios: Vec<std::io::IoSlice> = sl.iter().map(|s| std::io::IoSlice::new(s)).collect();
+        let k = w.write_vectored(&ios)?;
+        if rest.is_empty() {
+            return Ok(());
+        }
+        if k == 0 {
+            return Err(std::io::Error::new(std::io::ErrorKind::WriteZero, "write_vectored returned 0"));
+        }
+        rest = &rest[k.min(rest.len())..];
+        if rest.is_empty() {
+            return Ok(());
+        }
+    }
+}
+
+async fn async_write_chunk_vectored<W: AsyncWriteExt + Unpin>(w: &mut W, chunk: &[u8], n: usize) -> std::io::Result<()> {
+    let mut rest = chunk;
+    loop {
+        let sl = slices(rest, n);
+        let ios: Vec<std::io::IoSlice> = sl.iter().map(|s| std::io::IoSlice::new(s)).collect();
+        let k = w.write_vectored(&ios).await?;
+        if rest.is_empty() {
+            return Ok(());
+        }
+        if k == 0 {
+            return Err(std::io::Error::new(std::io::ErrorKind::WriteZero, "write_vectored returned 0"));
+        }
+        rest = &rest[k.min(rest.len())..];
+        if rest.is_empty() {
+            return Ok(());
+        }
+    }
 }
 
 /// `write_all` that also issues empty `write` calls for empty chunks.
@@ -352,7 +420,8 @@ fn do_write_sync(ctx: &Ctx, s: &WriteSpec) -> Out {
                 Err(e) => return err_out(e),
             };
             for (ci, ch) in cut_chunks(&data, &s.chunks).into_iter().enumerate() {
-                if let Err(e) = sync_write_chunk(&mut w, ch) {
+                let r = if s.vectored > 0 { sync_write_chunk_vectored(&mut w, ch, s.vectored as usize) } else { sync_write_chunk(&mut w, ch) };
+                if let Err(e) = r {
                     return io_out(e);
                 }
                 // `flush` means: flush in mid-stream (after the first chunk) and at the end
@@ -391,7 +460,8 @@ async fn do_write_async(ctx: &Ctx<'_>, s: &WriteSpec) -> Out {
                 Err(e) => return err_out(e),
             };
             for (ci, ch) in cut_chunks(&data, &s.chunks).into_iter().enumerate() {
-                if let Err(e) = async_write_chunk(&mut w, ch).await {
+                let r = if s.vectored > 0 { async_write_chunk_vectored(&mut w, ch, s.vectored as usize).await } else { async_write_chunk(&mut w, ch).await };
+                if let Err(e) = r {
                     return io_out(e);
                 }
                 if s.flush && ci == 0 {
@@ -710,7 +780,7 @@ fn do_sync(ctx: &Ctx, op: &Op) -> Out {
         Op::IdxDelete { key } => unit(cacache::index::delete(cache, ctx.key(*key))),
         Op::LinkTo(l) => do_link_sync(ctx, l),
         Op::Abandon { spec, at } => do_abandon_sync(ctx, spec, *at),
-        Op::DamageContent { .. } | Op::DamageBucket { .. } | Op::ForeignRecord { .. } | Op::Chdir { .. } | Op::PlantRecord { .. } => unreachable!(),
+        Op::DamageContent { .. } | Op::DamageBucket { .. } | Op::ForeignRecord { .. } | Op::Chdir { .. } | Op::PlantRecord { .. } | Op::TmpElsewhere => unreachable!(),
     }
 }
 
@@ -802,7 +872,7 @@ async fn do_async(ctx: &Ctx<'_>, op: &Op) -> Out {
         Op::IdxDelete { key } => unit(cacache::index::delete_async(cache, ctx.key(*key)).await),
         Op::LinkTo(l) => do_link_async(ctx, l).await,
         Op::Abandon { spec, at } => do_abandon_async(ctx, spec, *at).await,
-        Op::DamageContent { .. } | Op::DamageBucket { .. } | Op::ForeignRecord { .. } | Op::Chdir { .. } | Op::PlantRecord { .. } => unreachable!(),
+        Op::DamageContent { .. } | Op::DamageBucket { .. } | Op::ForeignRecord { .. } | Op::Chdir { .. } | Op::PlantRecord { .. } | Op::TmpElsewhere => unreachable!(),
     }
 }
 
@@ -847,7 +917,7 @@ fn link_opts(l: &LinkSpec, data: &[u8]) -> cacache::WriteOpts {
     if let Some(n) = declared_size(l.declare, data.len()) {
         o = o.size(n);
     }
-    if let Some(i) = declared_integrity(l.integ, l.algo, data) {
+    if let Some(i) = declared_integrity_ex(l.integ, l.algo, data, &[]) {
         o = o.integrity(i.parse().unwrap());
     }
     o
@@ -929,6 +999,16 @@ pub fn do_harness_side(ctx: &Ctx, op: &Op) -> Out {
         Op::DamageBucket { key, dmg } => {
             let p = reffmt::bucket_path(&ctx.cache, ctx.key(*key));
             crate::damage::damage_bucket(&p, dmg);
+            Out::Done
+        }
+        Op::TmpElsewhere => {
+            let tmp = ctx.cache.join("tmp");
+            let _ = std::fs::remove_dir_all(&tmp);
+            let _ = std::fs::remove_file(&tmp);
+            let target = other_fs_dir(&ctx.scratch).join("tmp-elsewhere");
+            let _ = std::fs::create_dir_all(&target);
+            let _ = std::fs::create_dir_all(&ctx.cache);
+            let _ = std::os::unix::fs::symlink(&target, &tmp);
             Out::Done
         }
         Op::PlantRecord { key, integrity, time } => {
